@@ -38,6 +38,13 @@ TINY = [["<form>", "</form>", "<table>", "</table>", "<object>", "</object>", "x
         ["<svg>", "</svg>", "<desc>", "<select>", "<table>", "</table>", "<p>"],
         ["<frameset>", "</frameset>", "<body>", "</html>", "<a>", " ", "<noframes>"],
         ["<template>", "</template>", "<table>", "<td>", "<select>", "</table>", "<form>"]]
+# one lexical construct made very long (a single token / reference / value of N characters): limits of the host language
+# (int() digit limit, recursion in regexes, quadratic scans) show only here
+LEXICAL = [("&#", "9", ";"), ("&#", "0", "65;"), ("&#x", "f", ";"), ("&#x", "0", "41;"), ("&", "a", ";"), ("<", "a", ">"), ("<a ", "b", "=c>"), ("<a b=", "c", ">"),
+           ('<a b="', "c", '">'), ("<!--", "-", "-->"), ("<!--", "x", ""), ("<!DOCTYPE ", "h", ">"), ('<!DOCTYPE html PUBLIC "', "x", '">'), ("</", "a", ">"),
+           ("<a ", "b ", ">"), ("<a ", "b=1 ", ">"), ("<svg><![CDATA[", "x", "]]>"), ("<svg><![CDATA[", "]", "]]>"), ("<title>", "&", "</title>"), ("<script>", "<!--", ""),
+           ("<textarea>", "\n", ""), ("", "\r\n", ""), ("<p ", 'a="&amp;" ', ">"), ("<a b='&#", "1", "'>"), ("<a b=&", "x", ">"), ("<!DOCTYPE html SYSTEM '", "y", ""),
+           ("&#", "1", ""), ("<a b=\"&#x", "A", ""), ("<p>", "\x00", ""), ("<", "\ud800", ">")]
 CONFIGS = [(b, ns, ft) for b in ("dom", "etree") for ns in (True, False) for ft in ((False, True) if b == "etree" else (False,))]
 
 
@@ -273,6 +280,7 @@ def shards(tier):
             out.append({"kind": "tiny", "alphabet": ai, "len": (6 if ai == 0 else 5) if quick else 7 if ai == 0 else 6, "part": part, "of": 2 if ai == 0 else 1})
     for i in range(8):
         out.append({"kind": "family", "part": i, "of": 8, "quick": quick})
+    out.append({"kind": "lexical", "quick": quick})
     if not quick:
         for i in range(6):
             out.append({"kind": "fuzz", "seconds": 300})
@@ -336,6 +344,19 @@ def run_shard(desc, seed, tier):
             case = _mk(inp, cfg)
             acc.add(case, check_case(case), sample={"input": short(inp, 120), "cfg": str(cfg)})
         drive(strat, fn, desc["n"], seed)
+    elif kind == "lexical":
+        quick = desc["quick"]
+        k = 0
+        for (pre, u, suf) in LEXICAL:
+            for n in ((4500, 20000) if quick else (4500, 20000, 200000)):
+                for (builder, ns, ft) in (("etree", True, True), ("dom", True, False)):
+                    k += 1
+                    container = None if k % 3 else "div"
+                    case = {"family": u, "n": n // len(u), "prefix": pre, "suffix": suf, "builder": builder, "namespace": ns, "full_tree": ft,
+                            "container": container, "scripting": bool(k % 2), "as_bytes": k % 4 == 0 and "\ud800" not in u}
+                    v = check_case(case, budget=120)
+                    v.classes = tuple(v.classes) + ("lexical-length",)
+                    acc.add(case, v)
     else:
         import itertools
         quick = desc["quick"]
